@@ -19,19 +19,20 @@ Definition has_method (t : gty) : bool :=
 Definition s_Value_f : str := [86; 97; 108; 117; 101]%N.
 
 (* ---------- zero values ---------- *)
-Fixpoint zero (fuel : nat) (t : gty) : gval :=
-  match fuel with
-  | O => GNil
-  | S f =>
-      match t with
-      | TString => GS [] | TBool => GB false | TFloat => GF 0 | TInt _ => GI 0
-      | TIface | TNullT | TPtr _ | TSlice _ _ | TMap _ => GNil
-      | TFmt _ => GFm None
-      | TStruct _ fs _ => GSt (map (fun fl => (f_name fl, zero f (f_ty fl))) fs)
-      | TNamed _ u _ => zero f u
-      | TEnum _ c w _ => if w then GSt [(s_Value_f, GNil)] else zero f c
-      | TRef d => match lookup d env with Some u => zero f u | None => GNil end
-      end
+(* the zero value of a field that the document does not mention.  A by-value reference to a
+   definition is only left at its zero value when the key is required (rejected before) or nillable
+   (nil): GNil stands for it. *)
+Fixpoint zero (t : gty) : gval :=
+  match t with
+  | TString => GS [] | TBool => GB false | TFloat => GF 0 | TInt _ => GI 0
+  | TIface | TNullT | TPtr _ | TSlice _ _ | TMap _ => GNil
+  | TFmt _ => GFm None
+  | TStruct _ fs _ =>
+      GSt ((fix go (fs : list field) : list (str * gval) :=
+              match fs with [] => [] | mkField n _ _ ty _ _ :: r => (n, zero ty) :: go r end) fs)
+  | TNamed _ u _ => zero u
+  | TEnum _ c w _ => if w then GSt [(s_Value_f, GNil)] else zero c
+  | TRef _ => GNil
   end.
 
 (* ---------- struct state ---------- *)
@@ -123,6 +124,9 @@ Fixpoint default_val (fuel : nat) (t : gty) (dv : json) : option gval :=
       | _, _ => None
       end
   end.
+
+Definition dv_fuel : nat := 50.
+Arguments default_val : simpl never.
 
 (* reflect.DeepEqual of a decoded carrier value with a table entry: same dynamic type, same value.
    Table integers are Go `int`; a sized carrier never equals them (D15). *)
@@ -334,12 +338,12 @@ Fixpoint dec (fuel : nat) (t : gty) (j : json) {struct fuel} : outcome gval :=
       end
   | TStruct name fs plan =>
       match name, plan with
-      | _ :: _, Some vs => run_method (dec f) (zero f) (default_val (S f)) (Some fs) t vs j
-      | _, _ => plain_fields (dec f) (zero f) fs j
+      | _ :: _, Some vs => run_method (dec f) zero (default_val dv_fuel) (Some fs) t vs j
+      | _, _ => plain_fields (dec f) zero fs j
       end
   | TNamed _ u plan =>
       match plan with
-      | Some vs => run_method (dec f) (zero f) (default_val (S f)) None u vs j
+      | Some vs => run_method (dec f) zero (default_val dv_fuel) None u vs j
       | None => dec f u j
       end
   | TEnum _ c w vals =>
